@@ -283,7 +283,7 @@ def raw_function(obj):
     if isinstance(obj, (staticmethod, classmethod)):
         return obj.__func__
     if isinstance(obj, property):
-        return obj.fget
+        obj = obj.fget       # may itself be an @contextmanager function (`@property @contextmanager def as_lines`)
     if isinstance(obj, types.MethodType):
         return obj.__func__
     if hasattr(obj, '__wrapped__') and isinstance(obj, types.FunctionType) and \
